@@ -39,6 +39,14 @@ ScenKey ==
     [] ScenKind = "bind" ->
          IF out.op = "Bind" THEN <<"bind", out.api, out.sel, out.param, out.status, out.why, Len(cfg)>>
          ELSE <<"none">>
+    [] ScenKind = "const" ->
+         \* a %name parsed into the configuration, by outcome, by the constants that exist and by what earlier
+         \* %name parses left in the store (so: the same abbreviation parsed before and after further definitions)
+         IF out.op = "Bind" /\ Tag(out.val) = "pct"
+         THEN <<"pct", out.val, out.status, { k.name : k \in consts }, { cfg[i].val : i \in 1..Len(cfg) }>>
+         ELSE IF out.op = "DefineConstant"
+         THEN <<"define", out.name, out.status, { k.name : k \in consts }, interactive>>
+         ELSE <<"none">>
     [] OTHER -> <<"none">>
 
 MaxFiles == IF "SCEN_MAX" \in DOMAIN IOEnv THEN atoi(IOEnv.SCEN_MAX) ELSE 400
